@@ -21,6 +21,18 @@ STRENGTHENED = {
     "C14_3": "qgen: nested queries in the select list, multi-part names",
     "C15_2": "qgen: wildcard next to qualified references, dialect variables",
     "C15_3": "qgen: implicit (no AS) aliases referenced from GROUP BY / ORDER BY",
+    "C03_3": "stgen: derived tables whose body starts with WITH, extra brackets around derived tables",
+    "C08_1": "comments in front of a list separator and behind the item after it (if the first ran on, `, item` would vanish from a still valid statement)",
+    "C08_2": "stgen: SELECTs wrapped in 1-3 bracket levels (UNION branch, CREATE TABLE AS, derived table); stray tokens placed behind closing brackets",
+    "C08_3": "stgen: window functions with every combination of PARTITION BY / ORDER BY / frame",
+    "C09_1": "comment separators of every star parity in the surface variants",
+    "C09_2": "stgen: lower-case null / true / false literals (statements ending in one) with varied trailing layout",
+    "C12_1": "census follows local aliases of module-level objects and memoising decorators; pool holds dialect-sensitive spellings under every dialect",
+    "C16_1": "lingen: self-joins (unqualified reference must be rejected, qualified ones resolved)",
+    "C16_2": "lingen: INSERT ... SELECT whose SELECT outputs one name twice (pairing is by position)",
+    "C16_3": "lingen: columns spelled like global variables (current_date ...), referenced qualified / back-quoted",
+    "C17_2": "lingen: one table name in two schemas within a statement",
+    "C17_3": "lingen: mixed-case aliases of derived tables and base tables",
     "C19_3": "pattern 'blanks' (long runs of white space) in the scaled inputs; seconds used only in the search phase",
 }
 
